@@ -22,6 +22,19 @@ func customCorpus(e *core.Env, n int, prefix string, mod func(i int, o *pgen.Cus
 		if mod != nil {
 			mod(i, &o)
 		}
+		// the first cases go through all hook kinds so that none depends on the luck of the seed
+		if kinds := pgen.HookKinds(); i%4 != 3 && i-i/4 < len(kinds) {
+			o.ForceKind = kinds[i-i/4]
+			if strings.HasPrefix(o.ForceKind, "extendUnexported") {
+				o.Format = "variables"
+			}
+			if o.ForceKind == "extendConv" {
+				o.Format = "struct"
+			}
+			if o.WrapLevel == "meth" {
+				o.WrapLevel = "conv"
+			}
+		}
 		cr := rand.New(rand.NewSource(r.Int63()))
 		if i%4 == 3 {
 			// type graphs with cycles: generated helpers that call each other while their signatures still change
